@@ -25,8 +25,13 @@ CHECKS = {
     text=_COMMON + 'C13: 3 584 malformed inputs (thorough 4 047) = every mutation of 52 base replies: truncation at every token boundary and inside tokens, declared length in {-5, -1, 0, rest+1, 3e6, 1e8, 2^31, 2^62+5, 2^63, 10^20-1, 2^64+k}, '
          'non-digits in a length, unknown / misplaced type bytes, missing or damaged CRLF, odd streamed maps, unterminated nested streams, bad integer / boolean texts; nesting depths 1e3, 5e4, (2e5,) 3e6 with debug.SetMaxStack(256 MB); plus all well-formed leaf and long cases as byte sequences. '
          'Oracle from the spec: class error -> an error must be returned, class any -> value or error; always: no panic, no fatal error, TotalAlloc delta <= 64 * bytes received + 1 MiB. '
-         'Children run under GOMEMLIMIT and RLIMIT_AS (+2 GiB); a child that dies is re-run on the case in flight alone and a second death is attributed to that case.',
-    design_ref='DESIGN.md 5 C13, 7 #7; proposed/design_resp.md',
+         'Children run under GOMEMLIMIT and RLIMIT_AS (+2 GiB); a child that dies is re-run on the case in flight alone and a second death is attributed to that case. '
+         'Round 2: RespAlloc.tla states the allocation rule as a process over time (header declares D units, the peer delivers sent < D and closes; accumulator capacity / filled / cumulative allocation; '
+         'invariant AllocBounded: allocated <= 8 * bytes received + 1 MiB for payload bytes, 128 * for 3-byte elements that become 48-byte structs; reference decoders with growth ratios 2, 1.5, 1.25 keep it, the negative configs '
+         '"allocate the declared length on the header" and "extend to the declared length once the first window is full" break it) and generates 480 inputs (thorough 1 920): oversized length {3e7, 1e8, 2^62-1, 2^63-1 bytes; 3e6, 1e7 elements} in 15 frames '
+         '($ ! = top level / in an array / behind an attribute, first and later chunk of a streamed string, * ~ > % | top level / nested / inside a streamed array) x a ladder of really delivered units '
+         '{0, 1, W/8+1, W-1, W, W+1, W+W/128, 2W-1, 2W+1, 4W+1} (W = 512 KiB of bytes or of elements; thorough up to 16W+7), each with the allocation the rule permits for its bytes.',
+    design_ref='DESIGN.md 5 C13, 7 #7; design/resp.md (Round 2)',
     note='Class coverage of a grammar-mutation model, not all byte sequences. Goroutine stack is not part of the allocation measure (see the known finding on nesting depth). Trusted: runtime.MemStats.'),
  'C14': dict(
     level='exploration', technique='TLA+ EncodeCmd (Resp.tla), TLC as case generator, real writeCmd / flushCmd / pipeline writer decoded by the independent fakeredis parser',
